@@ -358,6 +358,8 @@ package state
 //@   ensures value: result == (has(memPool.txs, txid) && memPool.txs[txid].trusted)
 //@   ensures frame: same(memPool.txs, memPool.inputs, memPool.requests) && forall(r *memPoolTx, same(r.trusted))
 
+// (removeTransaction compacts the index lists in place: the spenders of an outpoint are walked over a
+// private copy so that none is skipped)
 // Conflicting evicts every mempool transaction it reports by way of removeTransaction — whose
 // contract (C05) takes the transaction out of the pool and out of the index under each of its
 // outpoints — and reports exactly the transactions it evicts.
@@ -369,3 +371,4 @@ package state
 //@   requires memPool != nil && tx != nil
 //@   loop * invariant true
 //@   assert evicts_what_it_reports at call removeTransaction : [C06] arg1 == hash && len(result) > 0 && result[len(result) - 1] == hash
+//@   assert iterates_a_copy at call removeTransaction : [C06] fresharr(hashes) && len(hashes) == len(list)
